@@ -87,4 +87,11 @@ var propSpecs = []PropSpec{
 		NotDecided:  "glob and regexp matching semantics; how paths are spelled on the command line beyond the IsAbs/Rel structure",
 		Assumptions: commonAssumptions,
 	},
+	{
+		ID:          "C12",
+		Rules:       []string{"C12.TBL", "C12.KEYS", "C12.MAP", "C12.CASE"},
+		Explanation: "The space (34 workflow keys x 12 contexts x 5 special functions) is finite and enumerated completely from the literals: (TBL) the switch of WorkflowKeyAvailability, SpecialFunctionNames and allWorkflowKeys agree pairwise in both directions, every entry is lower-case and every context exists; (KEYS) the set of constant strings that can reach a workflowKey parameter (constant propagation through concatenation and all call sites) contains only \"\" and table keys, and every table key is used; (MAP) at every call site of RuleExpression with a constant key, the AST field handed over has a YAML path whose governing table key (longest table key that prefixes the path) has the same availability as the key passed; (CASE) names are lower-cased before being compared with the lists.",
+		NotDecided:  "agreement with GitHub's live table (not available offline: the generated table is checked for internal consistency and use); positions inside the expression where the name occurs are decided under C11.VISIT",
+		Assumptions: commonAssumptions,
+	},
 }
